@@ -164,13 +164,14 @@ def _gen_install(rng: Rng, st: List[str], at: List[str], names: List[str]) -> di
     return op
 
 
-def exhaustive_cases(depth: int, svc_type: str, durs: Tuple[int, int]) -> List[dict]:
+def exhaustive_cases(depth: int, svc_type: str, durs: Tuple[int, int], kind: str = "computer") -> List[dict]:
     """bounded-exhaustive lifecycle sequences over one service type: every word of length `depth` over the alphabet below"""
     alpha = [{"op": "sreq", "name": svc_type, "r": r} for r in ("stop", "start", "pause", "resume", "restart", "disable", "enable")]
     alpha += [{"op": "tick"}, {"op": "rshut"}, {"op": "rstart"}]
     out = []
     for word in itertools.product(range(len(alpha)), repeat=depth):
-        out.append({"node": {"power": "ON", "up": durs[0], "down": durs[1]}, "ops": [dict(alpha[i]) for i in word], "focus": "exhaustive"})
+        out.append({"node": {"power": "ON", "up": durs[0], "down": durs[1], "kind": kind}, "ops": [dict(alpha[i]) for i in word],
+                    "focus": "exhaustive"})
     return out
 
 
@@ -627,59 +628,68 @@ def runtime_class_table() -> List[dict]:
 
 # --------------------------------------------------------------------------------------------------- receive() guard probe
 def guard_probe(cls_name: str) -> dict:
-    """Give a not-running instance of the class a well-typed payload through its real `receive` and report whether it
-    processed it (truthy return, or something sent, or its state changed).  Independent of Lean and of the Gen table."""
+    """Give an instance of the class in each operating state a well-typed payload through its real `receive` and report
+    whether it processed it (truthy return, or something sent, or its state changed).  A FRESH node and instance per state,
+    so that what a RUNNING instance did with the payload cannot hide what a not-running one does.  Independent of Lean and
+    of the Gen table."""
     load()
-    from primaite.simulator.network.hardware.nodes.host.computer import Computer
     from primaite.simulator.system.applications.application import Application
     svc, app = registries()
     cls = next((c for c in list(svc.values()) + list(app.values()) if c.__name__ == cls_name), None)
     if cls is None:
         return {"cls": cls_name, "status": "not-registered"}
+    is_app = issubclass(cls, Application)
+    states = ["RUNNING", "CLOSED", "INSTALLING"] if is_app else ["RUNNING", "STOPPED", "PAUSED", "DISABLED", "RESTARTING"]
+    res = {"cls": cls_name, "status": "probed", "states": {}}
+    for st in states + ["RUNNING@node-OFF"]:
+        r = _probe_one(cls, cls_name, st)
+        if r is None:
+            continue
+        if "status" in r:
+            return {"cls": cls_name, **r}
+        res["states"][st] = r
+    return res
+
+
+def _probe_one(cls, cls_name: str, st: str) -> Optional[dict]:
+    from primaite.simulator.network.hardware.node_operating_state import NodeOperatingState
+    from primaite.simulator.network.hardware.nodes.host.computer import Computer
     node = Computer.from_config(config={"type": "computer", "hostname": "probe", "ip_address": "192.168.1.2",
                                         "subnet_mask": "255.255.255.0", "start_up_duration": 0})
     inst = next((o for o in node.software_manager.software.values() if type(o) is cls), None)
     if inst is None:
-        if cls_name == "DatabaseService":
-            pass
         node.software_manager.install(cls)
         inst = next(o for o in node.software_manager.software.values() if type(o) is cls)
     sent = []
     sess = node.session_manager
-    orig = sess.receive_payload_from_software_manager
-
-    def rec(*a, **k):
-        sent.append(1)
-        return False
-    object.__setattr__(sess, "receive_payload_from_software_manager", rec)
+    object.__setattr__(sess, "receive_payload_from_software_manager", lambda *a, **k: (sent.append(1), False)[1])
     nic = node.network_interface[1]
-    orig_send = nic.send_frame
     object.__setattr__(nic, "send_frame", lambda *a, **k: (sent.append(1), False)[1])
     try:
         payload, kwargs = _typed_payload(cls_name, node)
     except Exception as e:  # noqa
-        return {"cls": cls_name, "status": "no-payload", "detail": f"{type(e).__name__}: {e}"}
-    # running baseline: does the payload get processed at all when RUNNING?
-    res = {"cls": cls_name, "status": "probed", "states": {}}
-    is_app = isinstance(inst, Application)
-    states = ["RUNNING", "CLOSED", "INSTALLING"] if is_app else ["RUNNING", "STOPPED", "PAUSED", "DISABLED", "RESTARTING"]
+        return {"status": "no-payload", "detail": f"{type(e).__name__}: {e}"}
     enum = type(inst.operating_state)
-    for st in states:
+    if st == "RUNNING@node-OFF":
+        inst.operating_state = enum["RUNNING"]
+        node.operating_state = NodeOperatingState.OFF
+    else:
         inst.operating_state = enum[st]
-        sent.clear()
-        before = _snapshot(inst)
-        try:
-            ret = inst.receive(payload=payload, session_id="probe-session", **kwargs)
-            err = None
-        except Exception as e:  # noqa
-            ret, err = None, f"{type(e).__name__}"
-        after = _snapshot(inst)
-        res["states"][st] = {"ret": bool(ret), "sent": len(sent), "changed": before != after, "err": err}
-    return res
+    sent.clear()
+    before = _snapshot(inst)
+    try:
+        ret = inst.receive(payload=payload, session_id="probe-session", **kwargs)
+        err = None
+    except Exception as e:  # noqa
+        ret, err = None, f"{type(e).__name__}"
+    after = _snapshot(inst)
+    return {"ret": bool(ret), "sent": len(sent), "changed": before != after, "err": err}
 
 
 def _snapshot(inst) -> str:
-    skip = {"sys_log", "software_manager", "file_system", "folder", "parent"}
+    # `_active` (FTPServiceABC): "transmitted this timestep" flag, set before the running-guard by every FTP client entry
+    # point, cleared by pre_timestep and read by describe_state only while RUNNING — not payload handling (see design note)
+    skip = {"sys_log", "software_manager", "file_system", "folder", "parent", "_active"}
     out = {}
     for k, v in list(inst.__dict__.items()) + list((getattr(inst, "__pydantic_private__", None) or {}).items()):
         if k in skip or k == "operating_state":
@@ -739,7 +749,7 @@ def _typed_payload(cls_name: str, node):
         return FTPPacket(ftp_command=FTPCommand.PORT, ftp_command_args=21, status_code=FTPStatusCode.OK), kw
     if cls_name in ("C2Beacon", "C2Server"):
         from primaite.simulator.network.protocols.masquerade import C2Packet
-        from primaite.simulator.system.applications.red_applications.c2 import C2Payload
+        from primaite.simulator.system.applications.red_applications.c2.abstract_c2 import C2Payload
         return C2Packet(masquerade_protocol="tcp", masquerade_port=80, keep_alive_frequency=5, payload_type=C2Payload.KEEP_ALIVE), kw
     if cls_name in ("DatabaseService",):
         return {"type": "disconnect", "connection_id": "c"}, kw
